@@ -261,7 +261,7 @@ Qed.
    every state the code can be in between two of its primitive actions (a superset of the states
    between API calls) *)
 Inductive reach (pol : policy) : state -> Prop :=
-| r_start p : reach pol (start pol p)
+| r_start fs p : reach pol (start pol fs p)
 | r_roll st now : reach pol st -> reach pol (roll pol st now)
 | r_flush st : reach pol st -> reach pol (flush st)
 | r_append st r : reach pol st -> posrec r -> reach pol (append st r)
@@ -289,7 +289,7 @@ Proof.
   apply IH. apply step_reach. exact H.
 Qed.
 
-Lemma run_reach pol p0 ops : reach pol (run pol p0 ops).
+Lemma run_reach pol fs p0 ops : reach pol (run pol fs p0 ops).
 Proof. apply run_from_reach. apply r_start. Qed.
 
 (* ------------------------------------------------------------------ invariant of all reachable states *)
@@ -379,7 +379,7 @@ Qed.
 Lemma restart_inv pol st p : Inv pol st -> Inv pol (restart pol st p).
 Proof. intros [Hs Hc Hg Hf Hp]. constructor; cbn [restart flush rolled gone abuf]; try assumption. constructor. Qed.
 
-Lemma start_inv pol p : Inv pol (start pol p).
+Lemma start_inv pol fs p : Inv pol (start pol fs p).
 Proof.
   constructor; cbn [start rolled gone abuf map length].
   - constructor.
@@ -391,7 +391,7 @@ Qed.
 
 Theorem reach_inv pol st : reach pol st -> Inv pol st.
 Proof.
-  induction 1 as [p | st now _ IH | st _ IH | st r _ IH Hr | st p _ IH].
+  induction 1 as [fs p | st now _ IH | st _ IH | st r _ IH Hr | st p _ IH].
   - apply start_inv.
   - apply roll_inv; exact IH.
   - apply flush_inv; exact IH.
@@ -526,7 +526,7 @@ Proof.
     + exact Hf.
 Qed.
 
-Theorem run_size pol p0 ops : SizeInv pol (run pol p0 ops).
+Theorem run_size pol fs p0 ops : SizeInv pol (run pol fs p0 ops).
 Proof.
   unfold run. assert (H : forall st, reach pol st -> SizeInv pol st -> SizeInv pol (run_from pol st ops)).
   { unfold run_from. induction ops as [|o t IH]; cbn [fold_left]; intros st Hr Hs; [exact Hs|].
@@ -694,12 +694,12 @@ Proof.
     split; [reflexivity|]. intros En. rewrite (N1 En), (N2 En). reflexivity.
 Qed.
 
-Theorem run_stream pol p0 ops :
+Theorem run_stream pol fs p0 ops :
   monotone pol p0 ops ->
-  exists lost, written ops = lost ++ logical (run pol p0 ops)
+  exists lost, written ops = lost ++ logical (run pol fs p0 ops)
                /\ (p_max_retained pol = None -> lost = []).
 Proof.
-  intros Hm. destruct (run_from_stream pol ops (start pol p0) p0) as (lost & E & N).
+  intros Hm. destruct (run_from_stream pol ops (start pol fs p0) p0) as (lost & E & N).
   - apply r_start.
   - constructor; [cbn [start cur_period]; lia | intros f []].
   - exact Hm.
@@ -746,8 +746,8 @@ Proof.
   - unfold all_records, flush. cbn [rolled adisk abuf]. rewrite !app_nil_r. apply Permutation_refl.
 Qed.
 
-Theorem run_perm pol p0 ops :
-  p_max_retained pol = None -> Permutation (written ops) (all_records (run pol p0 ops)).
+Theorem run_perm pol fs p0 ops :
+  p_max_retained pol = None -> Permutation (written ops) (all_records (run pol fs p0 ops)).
 Proof.
   intros En. unfold run.
   assert (H : forall st, Permutation (all_records st ++ written ops) (all_records (run_from pol st ops))).
@@ -755,14 +755,14 @@ Proof.
     - cbn [written flat_map fold_left]. rewrite app_nil_r. apply Permutation_refl.
     - rewrite written_cons, app_assoc. cbn [fold_left].
       eapply Permutation_trans; [apply Permutation_app_tail; apply step_perm; exact En | apply IH]. }
-  apply (H (start pol p0)).
+  apply (H (start pol fs p0)).
 Qed.
 
 (* ------------------------------------------------------------------ the clock hypothesis is needed (finding F-roller-clock) *)
 (* The statement without the monotone-clock hypothesis. *)
 Definition stream_full : Prop :=
-  forall pol p0 ops,
-    exists lost, written ops = lost ++ logical (run pol p0 ops)
+  forall pol fs p0 ops,
+    exists lost, written ops = lost ++ logical (run pol fs p0 ops)
                  /\ (p_max_retained pol = None -> lost = []).
 
 (* started in period 5, the clock then reads period 3: the first size roll is named after period 5,
@@ -772,12 +772,12 @@ Definition clock_witness_pol := mkPolicy false (Some 6) (Some 1) None.
 Definition clock_witness_ops := [Write 3 (1, 7); Write 3 (2, 7); Flush].
 
 Lemma clock_witness_state :
-  run clock_witness_pol 5 clock_witness_ops = mkState [mkFile 5 1 false [(1, 7)]] [] [] 0 3 [(3, 1)].
+  run clock_witness_pol [] 5 clock_witness_ops = mkState [mkFile 5 1 false [(1, 7)]] [] [] 0 3 [(3, 1)] [].
 Proof. vm_compute. reflexivity. Qed.
 
 Theorem stream_refuted_backward_clock : ~ stream_full.
 Proof.
-  intros H. destruct (H clock_witness_pol 5 clock_witness_ops) as (lost & E & _).
+  intros H. destruct (H clock_witness_pol [] 5 clock_witness_ops) as (lost & E & _).
   rewrite clock_witness_state in E. vm_compute in E.
   destruct lost as [|a [|b lost]]; cbn [app] in E.
   - congruence.
@@ -788,5 +788,73 @@ Qed.
 (* the same two writes with unlimited retention: nothing is lost, but reading the files in
    (period, sequence) order yields the records in the wrong order *)
 Lemma clock_witness_reorder :
-  logical (run (mkPolicy false (Some 6) None None) 5 clock_witness_ops) = [(2, 7); (1, 7)].
+  logical (run (mkPolicy false (Some 6) None None) [] 5 clock_witness_ops) = [(2, 7); (1, 7)].
 Proof. vm_compute. reflexivity. Qed.
+
+(* ------------------------------------------------------------------ foreign files (sibling appenders, unrelated files) *)
+Lemma bufwrite_foreign st r : foreign (bufwrite st r) = foreign st.
+Proof.
+  unfold bufwrite. destruct (_ <? _); [reflexivity|].
+  destruct (_ <? _); destruct (_ <=? _); reflexivity.
+Qed.
+
+Lemma step_foreign pol st o : foreign (step pol st o) = foreign st.
+Proof.
+  destruct o as [p r|p|]; cbn [step]; [|reflexivity|reflexivity].
+  unfold write.
+  assert (H1 : foreign (if cur_period st <? eff pol p then roll pol st p else st) = foreign st)
+    by (destruct (_ <? _); reflexivity).
+  destruct (snd r =? 0); [exact H1|].
+  assert (H2 : foreign (append (if cur_period st <? eff pol p then roll pol st p else st) r) = foreign st).
+  { unfold append. cbn [foreign]. rewrite bufwrite_foreign. exact H1. }
+  destruct (p_max_size pol); [destruct (_ <=? _)|]; exact H2.
+Qed.
+
+Lemma run_from_foreign pol ops : forall st, foreign (run_from pol st ops) = foreign st.
+Proof.
+  unfold run_from. induction ops as [|o t IH]; intros st; cbn [fold_left]; [reflexivity|].
+  rewrite IH. apply step_foreign.
+Qed.
+
+(* non-interference: the roller's own part of the state does not depend on the foreign files *)
+Lemma bufwrite_with_foreign st fs r : bufwrite (with_foreign st fs) r = with_foreign (bufwrite st r) fs.
+Proof.
+  unfold bufwrite. cbn [with_foreign abuf].
+  destruct (_ <? _); [reflexivity|]. destruct (_ <? _); destruct (_ <=? _); reflexivity.
+Qed.
+
+Lemma roll_with_foreign pol st fs now : roll pol (with_foreign st fs) now = with_foreign (roll pol st now) fs.
+Proof. reflexivity. Qed.
+
+Lemma append_with_foreign st fs r : append (with_foreign st fs) r = with_foreign (append st r) fs.
+Proof. unfold append. rewrite bufwrite_with_foreign. reflexivity. Qed.
+
+Lemma step_with_foreign pol st fs o : step pol (with_foreign st fs) o = with_foreign (step pol st o) fs.
+Proof.
+  destruct o as [p r|p|]; cbn [step]; [|reflexivity|reflexivity].
+  unfold write. cbv zeta.
+  assert (E1 : (if cur_period (with_foreign st fs) <? eff pol p
+                then roll pol (with_foreign st fs) p else with_foreign st fs)
+               = with_foreign (if cur_period st <? eff pol p then roll pol st p else st) fs).
+  { change (cur_period (with_foreign st fs)) with (cur_period st). destruct (_ <? _); reflexivity. }
+  rewrite E1. set (st1 := if cur_period st <? eff pol p then roll pol st p else st).
+  destruct (snd r =? 0); [reflexivity|].
+  rewrite append_with_foreign. set (X := append st1 r).
+  change (cur_size (with_foreign X fs)) with (cur_size X).
+  destruct (p_max_size pol); [destruct (_ <=? _)|]; reflexivity.
+Qed.
+
+Lemma run_from_with_foreign pol ops : forall st fs,
+  run_from pol (with_foreign st fs) ops = with_foreign (run_from pol st ops) fs.
+Proof.
+  unfold run_from. induction ops as [|o t IH]; intros st fs; cbn [fold_left]; [reflexivity|].
+  rewrite step_with_foreign. apply IH.
+Qed.
+
+Theorem run_foreign pol fs p0 ops :
+  foreign (run pol fs p0 ops) = fs /\
+  (forall fs', run pol fs' p0 ops = with_foreign (run pol fs p0 ops) fs').
+Proof.
+  split; [unfold run; rewrite run_from_foreign; reflexivity|].
+  intros fs'. unfold run. rewrite <- run_from_with_foreign. reflexivity.
+Qed.
